@@ -1935,6 +1935,10 @@ class C08(BaseMonitor):
                 vid = f"{attr}-in-{sim.world.objs[m].id}"
                 if vid not in desc:
                     missing.append(((m, attr), f"changes when {n}.{a} changes ({why[:50]}) but is not among its descendants"))
+                elif x.id not in self.transitive_ancestor_ids(m, attr):
+                    # the same dependency read from the other end (what `explain` and the exported graph walk)
+                    missing.append(((m, attr), f"changes when {n}.{a} changes ({why[:50]}) and is among its descendants, "
+                                               f"but {n}.{a} is not among its transitive ancestors"))
             self.res.count("completeness_pairs_checked", len(changed))
             if missing:
                 raise Violation("C08", "incomplete_graph", self.where_of(missing), self.fmt(missing), i, op_kind(op))
@@ -1981,6 +1985,15 @@ class C08(BaseMonitor):
         pre["anc"] = anc
         return pre
 
+    def transitive_ancestor_ids(self, name, attr):
+        """ids reached by walking up from the live value of name.attr (all entries, for a dict-valued attribute)."""
+        v = getattr(self.sim.world.objs[name], attr, None)
+        out = set()
+        for e in (v.values() if isinstance(v, dict) else [v]):
+            if hasattr(e, "all_ancestors_with_id"):
+                out |= {a.id for a in e.all_ancestors_with_id}
+        return out
+
     def check_completeness(self, i, op, pre):
         sim = self.sim
         if "error" in pre:
@@ -2001,11 +2014,15 @@ class C08(BaseMonitor):
         changed = C.diff_snapshots(C.calc_snapshot(w0, names_), C.calc_snapshot(w1, names_), self.cls_of)
         desc = set(pre["desc_ids"])
         missing = []
+        input_id = f"{op['attr']}-in-{sim.world.objs[op['obj']].id}"
         for (n, attr), why in changed:
             vid = f"{attr}-in-{sim.world.objs[n].id}"
             if vid not in desc:
                 missing.append(((n, attr), f"changes when {op['obj']}.{op['attr']} changes ({why[:60]}) but is not among "
                                            f"its descendants"))
+            elif input_id not in self.transitive_ancestor_ids(n, attr):
+                missing.append(((n, attr), f"changes when {op['obj']}.{op['attr']} changes ({why[:60]}) and is among its "
+                                           f"descendants, but that input is not among its transitive ancestors"))
         self.res.count("completeness_pairs_checked", len(changed))
         if missing:
             raise Violation("C08", "incomplete_graph", self.where_of(missing), self.fmt(missing), i, op_kind(op))
